@@ -275,10 +275,13 @@ func c14Denotes(d *route.RouteDef, t *c14Tag, cs *c14Case, hostport string) stri
 	}
 	if t.Redirect != "" {
 		p := strings.SplitN(t.Redirect, ",", 2)
-		if len(p) == 2 {
-			wantDst = p[1]
-			wantOpts["redirect"] = p[0]
+		if len(p) != 2 {
+			// registered to redirect, but the option names no url: a line that proxies the prefix to the instance
+			// instead does not denote this registration (it cannot be expressed: no line at all)
+			return fmt.Sprintf("the tag asks for a redirect (%q, no url); a command without the redirect option is not what was registered", t.Redirect)
 		}
+		wantDst = p[1]
+		wantOpts["redirect"] = p[0]
 	}
 	if zi := strings.IndexByte(hostport, '%'); zi >= 0 && len(strings.SplitN(t.Redirect, ",", 2)) != 2 {
 		// an address with a zone: the destination must be that very host, however the '%' is written in the command
